@@ -1026,6 +1026,22 @@ MUTANTS = [
     dict(id="C03.a-fresh-inputs-enqueued", prop="C03", file=CG + "input_session.rs",
          old="            if set_input_result == SetInputResult::Updated {", new="            if set_input_result != SetInputResult::Unchanged {", nth=0,
          expect="C03.a/InputSession::set_input/enqueue-only-if-updated"),
+    dict(id="C09.i-D10-reintroduced-half-polled-once", prop="C09", file="crates/storage/src/key_of_set_map/cache.rs",
+         old="                for item in spilled.half_constructed.by_ref() {", new="                if let Some(item) = spilled.half_constructed.next() {",
+         expect="C09.i/merge/filtered-source-is-drained-in-a-loop"),
+    dict(id="C09.i-streaming-scan-polled-once", prop="C09", file="crates/storage/src/key_of_set_map/cache.rs",
+         old="                // First drain from db_iter\n                for item in db_iter.by_ref() {", new="                // First drain from db_iter\n                if let Some(item) = db_iter.next() {",
+         expect="C09.i/merge/filtered-source-is-drained-in-a-loop"),
+    dict(id="C12.k-varint-reader-u128-stops-on-set-bit", prop="C12", file="crates/serialize/src/postcard.rs",
+         old="            result |= u128::from(byte & 0x7F) << shift;\n\n            if byte & 0x80 == 0 {",
+         new="            result |= u128::from(byte & 0x7F) << shift;\n\n            if byte & 0x80 != 0 {",
+         expect="C12.k/varint-readers/siblings-agree-and-stop-on-a-clear-continuation-bit"),
+    dict(id="C12.k-varint-reader-u16-keeps-the-continuation-bit", prop="C12", file="crates/serialize/src/postcard.rs",
+         old="            result |= u16::from(byte & 0x7F) << shift;", new="            result |= u16::from(byte & 0xFF) << shift;",
+         expect="C12.k/varint-readers/siblings-agree-and-stop-on-a-clear-continuation-bit"),
+    dict(id="C12.k-varint-reader-u32-overflow-guard-off", prop="C12", file="crates/serialize/src/postcard.rs",
+         old="            if shift >= 32 {", new="            if shift > 32 {",
+         expect="C12.k/varint-readers/siblings-agree-and-stop-on-a-clear-continuation-bit"),
     dict(id="C12.g-zigzag-decode-arithmetic-shift", prop="C12", file="crates/serialize/src/postcard.rs",
          old="const fn zigzag_decode_i32(value: u32) -> i32 {\n    ((value >> 1) as i32) ^ (-((value & 1) as i32))",
          new="const fn zigzag_decode_i32(value: u32) -> i32 {\n    ((value as i32) >> 1) ^ (-((value & 1) as i32))",
